@@ -24,7 +24,7 @@ CHECKS.append({
     "design_ref": "DESIGN.md 5 (C17)",
     "technique": "Coq proof over slice descriptors regenerated from priors.estimate_sky by an ast translator (list/Z reasoning: membership, NoDup, length, "
                  "invariance) + kernel-checked vm_compute correspondence with the real estimate_sky / SourceProperties",
-    "text": "Eight theorems (Props/C17.v, closed under the global context) hold for ALL H,W>=2n, n>=1, images and masks: the gathered pixels are "
+    "text": "Ten theorems (Props/C17.v, closed under the global context; the last two: the median is invariant under any permutation of the gathered values and the sorted list it is read from is an ascending permutation of them) hold for ALL H,W>=2n, n>=1, images and masks: the gathered pixels are "
             "exactly those within n of an edge, each once, H*W-(H-2n)(W-2n) of them; the value multiset behind median/scatter depends only on "
             "unmasked border pixels (interior and masked-pixel invariance); count = border minus masked border.  The slices, the concatenate "
             "flavour (mask-preserving or not) and the count expression are re-extracted from the source on every run, so the theorems are "
@@ -69,7 +69,7 @@ CHECKS.append({
     "design_ref": "DESIGN.md 5 (C16)",
     "technique": "Coq proof (ring/field over R) about sky formulas, hyper-parameter expressions, grid orientation and build_model data flow regenerated "
                  "from the source by an ast translator + interval-arithmetic correspondence of the real 'model' site with/without sky",
-    "text": "Ten theorems (Props/C16.v) for all image sizes, pixels and sky parameter values: none adds 0, flat adds the constant, tilted-plane adds "
+    "text": "Fifteen theorems (Props/C16.v; the last five: slopes are per-pixel gradients, sky_back is the pivot value, joint linearity, point reflection, n x n frame total for every n by induction) for all image sizes, pixels and sky parameter values: none adds 0, flat adds the constant, tilted-plane adds "
             "back+(col-N/2)*x_sl+(row-N/2)*y_sl with X=column, Y=row on square frames, reduces to flat at zero slopes, equals the stand-alone function, "
             "enters obs = out + sky once (after the convolved scene) independently of the sources; sky hyper-parameters are (g,e),(0,e/10),(0,e/10) "
             "installed as Normal() through an affine transform with TransformReparam.  All definitions are re-extracted on each run; the tie is "
